@@ -27,6 +27,9 @@ pub fn families() -> Vec<&'static dyn Family> {
         &nsim::e2e::E2E_C14,
         &nsim::hostile::HOSTILE_PEER,
         &nsim::hostile::INVALID_PAYLOADS,
+        &nsim::reqrep_e2e::REQREP_E2E,
+        &nsim::reconnect::RECONNECT,
+        &nsim::reconnect::BACKOFF_TIMING,
     ]
 }
 
@@ -177,6 +180,37 @@ pub fn plan(property: &str) -> Option<CheckPlan> {
             stubbed: N_STUB.to_vec(),
             items: vec![PlanItem { family: &nsim::e2e::E2E_C03, quick: 600, thorough: 40_000 }],
         }),
+        "C04" => Some(CheckPlan {
+            property: "C04",
+            level: "exploration",
+            rule: "1-3 library requestor streams (shared or separate connections), each cloned 1-4 times, 1-30 concurrent request() calls with unique payloads and a virtual timeout of 50 ms..5 s, against a raw replier peer following a per-request script (now / after d / late / never / twice; out of order through delays) bound before or after the requestors, or against the library Replier with handler delays; mild network faults; non-trivial = >= 2 calls returned; distinct = distinct script bodies",
+            assumptions: vec!["a call whose reply was scripted well inside the timeout must succeed only on a loss-free network; otherwise a timeout is accepted", "the timeout error must come no earlier than the timeout and no later than timeout + 1 s after the call was issued (virtual clock)", "runs with a lost connection are inconclusive"],
+            real: N_REAL.to_vec(),
+            stubbed: N_STUB.to_vec(),
+            items: vec![PlanItem { family: &nsim::reqrep_e2e::REQREP_E2E, quick: 500, thorough: 30_000 }],
+        }),
+        "C12" => Some(CheckPlan {
+            property: "C12",
+            level: "fault_enumeration",
+            rule: "stream kind {publisher, subscriber, requestor, replier} x fault {H1 connection close, partition held for exactly k failed attempts (k = 0..max_attempts+1), server restart (down 0.1/2/8 s)} x 1..max_attempts+3 successive outages x backoff configuration (strategy, step 1 ms..1.5 s, 0-6 attempts, optional cap), drawn from VERIF_SEED; traffic runs continuously on the victim stream and a helper counterpart; non-trivial = at least one outage injected; distinct = distinct script bodies",
+            assumptions: vec![
+                "messages sent during an outage are not owed; only traffic started >= 1 virtual second after the victim's successful_reconnection event (and after the heal) is judged",
+                "a replier may lose one attempt to REPLIER_ALREADY_BOUND while the server still tears down the old binding, so recovery is demanded of it only with one attempt to spare",
+                "recovery after a server restart is demanded only with >= 3 attempts",
+            ],
+            real: N_REAL.to_vec(),
+            stubbed: N_STUB.to_vec(),
+            items: vec![PlanItem { family: &nsim::reconnect::RECONNECT, quick: 400, thorough: 30_000 }],
+        }),
+        "C13" => Some(CheckPlan {
+            property: "C13",
+            level: "exploration",
+            rule: "a library stream with a generated BackoffStrategy (constant / linear / exponential with factor 0,1,2,3,10,2^32,u64::MAX; step 0..10^9 s; 0-300 attempts; optional cap) is put through one partition held for the whole schedule; every reconnect_attempt event and the exhaustion report are timestamped on the virtual clock; non-trivial = outage injected; distinct = distinct script bodies",
+            assumptions: vec!["a failed connect takes quinn's 10 s handshake timeout; the delay of attempt n is the gap to the next attempt minus that, compared with the law computed in u128 with saturation (tolerance -50/+1500 ms)", "schedules longer than the 2*10^5 s observation horizon are judged on the attempts seen"],
+            real: N_REAL.to_vec(),
+            stubbed: N_STUB.to_vec(),
+            items: vec![PlanItem { family: &nsim::reconnect::BACKOFF_TIMING, quick: 300, thorough: 20_000 }],
+        }),
         "C14" => Some(CheckPlan {
             property: "C14",
             level: "exploration",
@@ -200,5 +234,5 @@ pub fn plan(property: &str) -> Option<CheckPlan> {
 }
 
 pub fn properties() -> Vec<&'static str> {
-    vec!["C01", "C02", "C03", "C05", "C06", "C08", "C09", "C10", "C11", "C14", "C16"]
+    vec!["C01", "C02", "C03", "C04", "C05", "C06", "C08", "C09", "C10", "C11", "C12", "C13", "C14", "C16"]
 }
